@@ -14,7 +14,8 @@ TECH = ("contract-based deductive verification: pre/postconditions, loop and typ
 TRUST = ("Trusted: the govc VC generator (lowering of a Go subset to guarded commands; its must-fail corpus is in /verif/selftest), "
          "the SMT solvers, the assumed contracts listed in the evidence under trusted_base (stdlib: utf8, reflect, strconv, "
          "strings.Builder, sort, sync.Pool freshness, io.Writer; user methods: rely contracts), mathematical integers with "
-         "every length <= 2^40, definitional axioms of the spec function dep (lemmas about it are proved on every run). ")
+         "every length <= 2^40, definitional axioms of the spec functions dep and nd (lemmas about dep are proved on every run). "
+         "Solver verdicts are memoised for byte-identical queries (/verif/.cache); VCs are regenerated from the working tree on every run. ")
 
 P = {}
 
